@@ -138,4 +138,56 @@ theorem lexGo_rem (fuel : Nat) (s : Str) (st : LexSt)
         simp only at hf he ⊢
         exact ih _ st' hf he
 
+/-! ### position of a lexer error -/
+
+theorem lexStep_state {s : Str} {st : LexSt} {t : Token} {st' : LexSt} {n : Nat}
+    (h : lexStep s st = .tok t st' n) : st'.loc = st.loc + n ∧ st.lineno ≤ st'.lineno := by
+  unfold lexStep at h
+  dsimp only at h
+  repeat' split at h
+  all_goals (first
+    | (simp at h; done)
+    | (simp at h; obtain ⟨_, rfl, rfl⟩ := h; simp))
+
+theorem lexStep_err {s : Str} {st : LexSt} {l c : Nat} (h : lexStep s st = .err l c) :
+    l = st.lineno ∧ c ≤ st.loc := by
+  unfold lexStep at h
+  dsimp only at h
+  repeat' split at h
+  all_goals (first
+    | (simp at h; done)
+    | (simp at h; obtain ⟨rfl, rfl⟩ := h; exact ⟨rfl, Nat.sub_le _ _⟩))
+
+theorem lexGo_err_pos (fuel : Nat) (s : Str) (st : LexSt) {l c : Nat}
+    (h : (lexGo fuel s st).err = some (l, c)) : st.lineno ≤ l ∧ c ≤ st.loc + s.length := by
+  induction fuel generalizing s st with
+  | zero => simp [lexGo] at h
+  | succ k ih =>
+    cases s with
+    | nil => simp [lexGo] at h
+    | cons a as =>
+      simp only [lexGo] at h
+      cases hstep : lexStep (a :: as) st with
+      | err l' c' =>
+        rw [hstep] at h; simp at h; obtain ⟨rfl, rfl⟩ := h
+        obtain ⟨h1, h2⟩ := lexStep_err hstep
+        exact ⟨by omega, by omega⟩
+      | tok t st' n =>
+        rw [hstep] at h; simp only at h
+        obtain ⟨hl, hn⟩ := lexStep_state hstep
+        cases hd : List.drop n (a :: as) with
+        | nil =>
+          rw [hd] at h
+          cases k <;> simp [lexGo] at h
+        | cons b bs =>
+          have hlen : n < (a :: as).length := by
+            apply Nat.lt_of_not_le
+            intro hge
+            have : List.drop n (a :: as) = [] := List.drop_eq_nil_of_le hge
+            rw [this] at hd; cases hd
+          obtain ⟨h1, h2⟩ := ih _ st' h
+          refine ⟨by omega, ?_⟩
+          rw [List.length_drop] at h2
+          omega
+
 end MesonModel.Lang
